@@ -22,6 +22,7 @@ M_CFG = """SPECIFICATION Spec
 CONSTANTS
   MaxOffers = %d
   MaxCrash = %d
+  Atomic = %s
   GenMode = "none"
 INVARIANT Consistent NotWedged NoPrunedDispatch
 VIEW View
@@ -32,6 +33,7 @@ G_CFG = """SPECIFICATION Spec
 CONSTANTS
   MaxOffers = %d
   MaxCrash = 0
+  Atomic = FALSE
   GenMode = "leaf"
 CONSTRAINT Leaf
 CHECK_DEADLOCK FALSE
@@ -64,9 +66,9 @@ def generate(ctx):
     behs = witnesses()
     nw = len(behs)
     violated = None
-    runs = [(3, 1)] if quick else [(4, 1), (3, 2)]
+    runs = [(4, 1)] if quick else [(5, 1), (4, 2)]
     for i, (offers, crashes) in enumerate(runs):
-        m = ctx.tlc_must("ChainImport", M_CFG % (offers, crashes), name="M_design_o%d_c%d" % (offers, crashes), files=files,
+        m = ctx.tlc_must("ChainImport", M_CFG % (offers, crashes, "FALSE"), name="M_design_o%d_c%d" % (offers, crashes), files=files,
                          timeout=3000, coverage=(not quick and i == 0))
         for v in m.printed:
             if isinstance(v, dict) and v.get("kind") == "CEX":
@@ -79,6 +81,13 @@ def generate(ctx):
                 ctx.cov["coverage_zero_actions"] = m.zero_actions
         violated = violated or m.violated
     ncex = len(behs) - nw
+    # the proposed repair (one atomic batch for lookups, canonical hashes and head markers) has no deviation at all
+    offers, crashes = (3, 1) if quick else (4, 2)
+    f = ctx.tlc_must("ChainImport", M_CFG % (offers, crashes, "TRUE"), name="M_repaired", timeout=3000,
+                     files={"known_c11.json": json.dumps([{"clause": "-none-", "disc": ["-"]}])})
+    ctx.cov["repaired_design_holds"] = bool(f.ok)
+    if not f.ok:
+        ctx.note("the design with the proposed repair still has a deviation: %s" % f.violated)
     rnd = random.Random(ctx.seed)
     # G1: bounded exhaustive sequences of calls
     g = {}
@@ -92,7 +101,7 @@ def generate(ctx):
         seqs += g[2] + g[3][:150]
     else:
         rnd.shuffle(g[3])
-        seqs += g[2] + g[3][:500]
+        seqs += g[2] + g[3]
     n1 = len(seqs)
     # G2: longer random sequences
     depth = 5
@@ -101,7 +110,7 @@ def generate(ctx):
     sim = [v["h"] for v in g2.printed if isinstance(v, dict) and v.get("kind") == "B"]
     sim = [json.loads(s) for s in sorted({json.dumps(b) for b in sim})]
     rnd.shuffle(sim)
-    seqs += sim[:(60 if quick else 250)]
+    seqs += sim[:(60 if quick else 500)]
     behs += seqs
     ctx.note("behaviours: %d witnesses, %d design counterexamples, %d bounded-exhaustive, %d simulated" % (
         nw, ncex, n1, len(seqs) - n1))
